@@ -6,6 +6,7 @@ import GmQuic.Model.Wake3
 import GmQuic.Model.Wake4
 import GmQuic.Model.Wake5
 import GmQuic.Model.WakeCid
+import GmQuic.Model.WakeFlow
 /-! Line driver for C16: one entry per waiter/notifier protocol; exact comparison of the poll result and of
 the (sorted) list of wakers woken by every operation.  The models of `Receiving` and `OpenStream` are the
 ones of the FIXED code (repo_patches/fix-C16-*.diff); `C16rx0` / `C16open0` replay against the pinned code. -/
@@ -287,6 +288,98 @@ def cidStep (c : CidSeq) (op : List String) : CidSeq × String :=
 
 def cidModel : Model CidSeq := { init := ⟨Cid.init, none, false⟩, step := exact cidStep }
 
+/-! flow-control credit: sequential composition of the critical sections of Model/WakeFlow.lean -/
+structure FlowSeq where
+  s : Flow.State
+  slot : Option Nat
+  held : List Nat
+
+/-- wakers woken by one atomic step (only `wakeAll` sets the bit) -/
+def flowWk (slot : Option Nat) (a b : Flow.State) : List Nat :=
+  if !a.bit && a.registered && b.bit then (match slot with | some w => [w] | none => []) else []
+
+def flowDo (f : FlowSeq) (op : Flow.Op) : FlowSeq × List Nat :=
+  let s' := Flow.step f.s op
+  (⟨s', f.slot, f.held⟩, flowWk f.slot f.s s')
+
+def flowStep (f : FlowSeq) (op : List String) : FlowSeq × String :=
+  match op with
+  | ["poll", _, w, q] =>
+    match nat? w, nat? q with
+    | some w, some q =>
+      let (f0, _) := flowDo f .restart
+      let (f1, w1) := flowDo f0 (.waiter (q - 1) 0)            -- credit(q)
+      match f1.s.wpc with
+      | .wd a =>
+        let (f2, w2) := flowDo f1 (.waiter 0 a)                 -- post_sent(a); drop
+        if a > 0 then (f2, s!"ready:{a} wakes={fmtWakes (w1 ++ w2)}")
+        else
+          let hadBit := f2.s.bit
+          let (f3, w3) := flowDo f2 (.waiter 0 0)               -- poll_wait_for(FLOW_CONTROL)
+          if hadBit then (f3, s!"ready:0 wakes={fmtWakes (w1 ++ w2 ++ w3)}")
+          else (⟨f3.s, some w, f3.held⟩, s!"pending wakes={fmtWakes (w1 ++ w2 ++ w3)}")
+      | _ =>                                                     -- credit() = Err
+        let hadBit := f1.s.bit
+        let (f3, w3) := flowDo f1 (.waiter 0 0)
+        if hadBit then (f3, s!"ready:0 wakes={fmtWakes (w1 ++ w3)}")
+        else (⟨f3.s, some w, f3.held⟩, s!"pending wakes={fmtWakes (w1 ++ w3)}")
+    | _, _ => (f, "BAD op")
+  | ["max_data", v] =>
+    match nat? v with
+    | some v => let (f', wk) := flowDo f (.maxData v); (f', s!"- wakes={fmtWakes wk}")
+    | none => (f, "BAD op")
+  | ["revise", r, v] =>
+    match nat? r, nat? v with
+    | some r, some v => let (f', wk) := flowDo f (.revise (r != 0) v); (f', s!"- wakes={fmtWakes wk}")
+    | _, _ => (f, "BAD op")
+  | ["other_take", k] =>
+    match nat? k with
+    | some k =>
+      if f.s.closed then (f, "- wakes=-")
+      else
+        let a := min (Flow.avail f.s) k
+        let (f', wk) := flowDo f (.otherTake k)
+        (⟨f'.s, f'.slot, f.held ++ [a]⟩, s!"- wakes={fmtWakes wk}")
+    | none => (f, "BAD op")
+  | ["other_return"] =>
+    match f.held with
+    | [] => (f, "- wakes=-")
+    | k :: rest =>
+      let (f', wk) := flowDo f (.otherReturn k)
+      (⟨f'.s, f'.slot, rest⟩, s!"- wakes={fmtWakes wk}")
+  | ["error"] => let (f', _) := flowDo f .error; (f', "- wakes=-")
+  | ["dropfut", _] => (f, "- wakes=-")
+  | _ => (f, "BAD op")
+
+def flowModel : Model FlowSeq := { init := ⟨Flow.init 5, none, []⟩, step := exact flowStep }
+
+/-! `Wakers::combine_with` at call granularity (the harness's inner closure may notify right after its check) -/
+structure WksSeq where
+  list : List Nat
+  resW : Bool
+  ready : Bool
+
+def wksNotify (s : WksSeq) : WksSeq × List Nat :=
+  if s.resW then (⟨[], false, true⟩, s.list) else (⟨s.list, false, true⟩, [])
+
+def wksStep (s : WksSeq) (op : List String) : WksSeq × String :=
+  match op with
+  | ["poll", _, w, m] =>
+    match nat? w, nat? m with
+    | some w, some m =>
+      let l := if s.list.contains w then s.list else s.list ++ [w]      -- register (de-duplicated by will_wake)
+      if s.ready then (⟨l, s.resW, false⟩, "ready:1 wakes=-")
+      else if m != 0 then
+        let (s', wk) := wksNotify ⟨l, true, false⟩
+        (s', s!"pending wakes={fmtWakes wk}")
+      else (⟨l, true, false⟩, "pending wakes=-")
+    | _, _ => (s, "BAD op")
+  | ["notify"] => let (s', wk) := wksNotify s; (s', s!"- wakes={fmtWakes wk}")
+  | ["dropfut", _] => (s, "- wakes=-")
+  | _ => (s, "BAD op")
+
+def wksModel : Model WksSeq := { init := ⟨[], false, false⟩, step := exact wksStep }
+
 def aaModel : Model AaSeq := { init := ⟨AA.init, none⟩, step := exact aaStep }
 
 def entries : List (String × IO UInt32) :=
@@ -309,6 +402,8 @@ def entries : List (String × IO UInt32) :=
    ("C16crw0", runModel (mkX (CrW.proto false) parseCrW crwExtra)),
    ("C16crr", runModel (mk CrR.proto parseCrR)),
    ("C16cid", runModel cidModel),
+   ("C16flow", runModel flowModel),
+   ("C16wks", runModel wksModel),
    ("C16rcv0", runModel (mk (Rcv.proto false 100) parseRcv))]
 
 end GmQuic.Drv.C16
